@@ -152,7 +152,7 @@ def run_case(ctx, pydsdl, seed, nrep, workdir):
             return ns, 0
         opened_victims = 0
         for _ in range(nrep):
-            kind = rng.choice(list(REPLACEMENTS) + ["add-port-collision", "conflicting-minor"])
+            kind = rng.choice(list(REPLACEMENTS) + ["add-port-collision", "conflicting-minor", "target-sibling-minor-with-port", "target-sibling-minor-with-port"])
             v = rng.choice(outside)
             d = ns["defs"][v]
             original = paths[v].read_text()
@@ -164,6 +164,28 @@ def run_case(ctx, pydsdl, seed, nrep, workdir):
                     p = rdir / ("7509.%s.1.0.dsdl" % nm)
                     p.write_text("@sealed\n")
                     added.append(p)
+            elif kind == "target-sibling-minor-with-port":
+                # an unreferenced minor version of a definition INSIDE the closure whose file name carries a conflicting
+                # fixed port-ID; it must sit where it is not a target: next to the target for read_files, or in a
+                # same-named lookup directory for read_namespace
+                t = ns["defs"][rng.choice(sorted(clos))]
+                if call["api"] == "read_files":
+                    ddir = paths[ns["defs"].index(t)].parent
+                else:
+                    same = [j for j, r in enumerate(ns["roots"]) if j != 0 and r["name"] == ns["roots"][t["root"]]["name"] and j in call["lookups"]]
+                    if not same or t["root"] != 0:
+                        continue
+                    ddir = (base / ns["roots"][same[0]]["dir"]).joinpath(*t["ns"])
+                    ddir.mkdir(parents=True, exist_ok=True)
+                taken = {tuple(x["ver"]) for x in ns["defs"] if GN.full_name(ns, x) == GN.full_name(ns, t)}
+                newver = (t["ver"][0], (t["ver"][1] + rng.choice([1, 2, 9])) % 256)
+                if newver in taken or newver == (0, 0):
+                    continue  # the same name and version twice is a (legitimate) collision error, not this experiment
+                p = ddir / ("%d.%s.%d.%d.dsdl" % (rng.choice([7001, 7002, 100]), t["short"], newver[0], newver[1]))
+                if p.exists():
+                    continue
+                p.write_text(rng.choice(["@sealed\n", "uint8 z\n@sealed\n", "garbage %%%\n"]))
+                added.append(p)
             elif kind == "conflicting-minor":
                 # a sibling minor version of the victim with different sealing, both outside the closure
                 p = paths[v].parent / ("%s.%d.%d.dsdl" % (d["short"], d["ver"][0], (d["ver"][1] + 17) % 256))
